@@ -378,6 +378,58 @@ func c14HTTP(c *Ctx, ix *PkgIndex, m otlpMod) {
 				return true
 			})
 		}
+		// … and the message is decoded from the whole response body: a read that stops after N bytes hands proto.Unmarshal a
+		// truncated message, a delivered export is then reported as failed and the rejection never reaches the handler
+		{
+			truncating := func(n ast.Node, depth int) bool { return false }
+			truncating = func(n ast.Node, depth int) bool {
+				hit := false
+				inspectNoLit(n, func(m ast.Node) bool {
+					call, ok := m.(*ast.CallExpr)
+					if !ok {
+						return true
+					}
+					if isCallTo(info, call, "io.LimitReader") || isCallTo(info, call, "io.CopyN") || isCallTo(info, call, "net/http.MaxBytesReader") {
+						hit = true
+					}
+					if depth < 2 {
+						if d := ix.declByObj(callee(info, call)); d != nil && d.Body() != nil && truncating(d.Body(), depth+1) {
+							hit = true
+						}
+					}
+					return true
+				})
+				return hit
+			}
+			var cut, decode []*GNode
+			for _, x := range g.Nodes {
+				if x.N == nil {
+					continue
+				}
+				if truncating(x.N, 0) {
+					cut = append(cut, x)
+				}
+				inspectNoLit(x.N, func(m ast.Node) bool {
+					if call, ok := m.(*ast.CallExpr); ok && isCallTo(info, call, "google.golang.org/protobuf/proto.Unmarshal") {
+						decode = append(decode, x)
+					}
+					return true
+				})
+			}
+			bad := ""
+			for _, ct := range cut {
+				r, _ := g.Reach([]*GNode{ct}, nil, nil)
+				for _, d := range decode {
+					if r[d] {
+						bad = "a size-limited read at " + ix.M.posStr(ct.N.Pos()) + " feeds proto.Unmarshal at " + ix.M.posStr(d.N.Pos())
+					}
+				}
+			}
+			if len(decode) > 0 {
+				c.Check(bad == "", "R4", sp+"|UploadX$closure|the response message is decoded from the whole body", at(ix.M, decode[0].N.Pos()), itoa(len(decode))+" decode site(s), none behind a size-limited read",
+					"a partial-success message longer than the limit is cut, Unmarshal fails and the export that the collector accepted is reported as an error (and the rejection is never handed to otel.Handle): "+bad)
+			}
+		}
 		ps := found
 		c.Check(ps && handled && !returned, "R4", sp+"|UploadX$closure|partial success reported through otel.Handle, not returned", at(ix.M, cl.Pos()), "a 2xx response is a success for the retry loop", "a partially successful export is returned as an error (and would be retried, duplicating accepted data) or silently ignored")
 	}
